@@ -20,6 +20,7 @@ import (
 	"path/filepath"
 	"strconv"
 	"strings"
+	"time"
 
 	"verifharness/c07/xcfg"
 	"verifharness/vhlib"
@@ -228,6 +229,76 @@ var cfgNames = xcfg.Names()
 var sizes = []int{0, 1, 2, 12, 13, 16, 17, 100, 255, 256, 1000, 4095, 4096, 4097, 8191, 8192, 8193}
 var bigSizes = []int{16384, 65535, 65536, 65537, 131071, 131072, 131073, 200000, 307200}
 
+// blocks far beyond the usual sizes: a ladder around 128 KiB, 1 MiB and 8 MiB for every encoder and all 16
+// writer/reader pairs; 16 MiB+1 and 64 MiB+1 for every encoder and reader build; the zstd window sizes
+// 2^10+1 .. 2^27+1 for every reader build. Compressible patterns (a few incompressible ones <= 8 MiB+1); above
+// `big_threshold` the Coq side uses the proved closed form of the model, so these cost Go time only.
+var ladder = []int{131071, 131072, 131073, 1<<20 - 1, 1 << 20, 1<<20 + 1, 8<<20 - 1, 8 << 20, 8<<20 + 1}
+
+const nBig = 48 + 12 + 4 + 2 + 2
+
+func bigKind(size, salt int) string {
+	if salt%7 == 0 && (size <= 1<<20+1 || (size == 8<<20+1 && salt%14 == 0)) { // incompressible: a few, HC levels are slow on them
+		return "random"
+	}
+	if size > 1<<20+1 {
+		return "tile" // cheap to generate; (one huge run of a single byte is very slow in klauspost's decoder)
+	}
+	return []string{"const", "text", "counters"}[salt%3]
+}
+
+func b2i(b bool) int {
+	if b {
+		return 1
+	}
+	return 0
+}
+
+func bigCase(k int, heavy bool) input {
+	in := input{SLen: 8192, SCap: 8192}
+	switch {
+	case k < 48:
+		p, e := k%16, k/16
+		in.W, in.R, in.Enc = cfgNames[p/4], cfgNames[p%4], []string{"zstd", "lz4", "null"}[e]
+		for j, n := range ladder {
+			if !heavy && in.Enc == "null" && p%5 != 0 && p != 1 && p != 4 && j%3 != 2 {
+				continue // quick tier: the null encoder has one implementation; off-diagonal pairs get a short ladder
+			}
+			in.Blocks = append(in.Blocks, blockIn{bigKind(n, k+j), n, uint64(4000 + 16*k + j)})
+		}
+	case k < 60:
+		// 16 MiB+1 for every encoder and reader build; 64 MiB+1 in the quick tier only where a pure-Go decoder reads
+		k -= 48
+		in.W, in.R, in.Enc = cfgNames[(k+1)%4], cfgNames[k%4], []string{"zstd", "lz4", "null"}[k/4]
+		in.Blocks = []blockIn{{"tile", 16<<20 + 1, uint64(5000 + k)}}
+		if heavy || k == 1 || k == 3 || k == 5 { // quick tier: native zstd readers (nocgo, nolibzstd) and one native lz4 reader
+			in.Blocks = append(in.Blocks, blockIn{"tile", 64<<20 + 1, uint64(5100 + k)})
+		}
+	case k < 64:
+		k -= 60
+		in.W, in.R, in.Enc, in.Level = cfgNames[(k+2)%4], cfgNames[k], "zstd", []int{0, 1, 12, 19}[k]
+		for e := 10; e <= 24; e++ {
+			in.Blocks = append(in.Blocks, blockIn{[]string{"const", "text", "tile", "tile"}[e%2+2*b2i(e > 20)], 1<<e + 1, uint64(6000 + 32*k + e)})
+		}
+	case k < 66:
+		k -= 64
+		in.W, in.R, in.Enc = []string{"cgo", "nocgo"}[k], []string{"nocgo", "cgo"}[k], "zstd"
+		in.Blocks = []blockIn{{"tile", 1<<25 + 1, uint64(7000 + k)}}
+		if heavy || k == 0 {
+			in.Blocks = append(in.Blocks, blockIn{"tile", 1<<26 + 1, uint64(7100 + k)})
+		}
+	default: // 2^27+1 only in the thorough tier and the search rounds
+		k -= 66
+		in.W, in.R, in.Enc = []string{"cgo", "nocgo"}[k], []string{"nocgo", "cgo"}[k], "zstd"
+		size := 1<<23 + 1
+		if heavy {
+			size = 1<<27 + 1
+		}
+		in.Blocks = []blockIn{{"tile", size, uint64(7200 + k)}}
+	}
+	return in
+}
+
 func gen(r *vhlib.Rand, i int, o vhlib.Opts) any {
 	// the first 48 cases: all 16 writer/reader pairs x 3 encoders, each a small "database column": an
 	// empty block, a tiny (growing) block, two compressible blocks (one larger than the scratch buffer) and an
@@ -253,6 +324,9 @@ func gen(r *vhlib.Rand, i int, o vhlib.Opts) any {
 			in.Blocks = []blockIn{{"random", n, uint64(k)}, {"mixed", n / 2, uint64(k)}}
 		}
 		return in
+	}
+	if i < 64+nBig {
+		return bigCase(i-64, o.Search || o.Tier == "thorough")
 	}
 	in := input{W: vhlib.Pick(r, cfgNames), R: vhlib.Pick(r, cfgNames), SLen: 8192, SCap: 8192}
 	switch x := r.Intn(100); {
@@ -292,6 +366,18 @@ func gen(r *vhlib.Rand, i int, o vhlib.Opts) any {
 			b.Size = r.Intn(9000)
 		}
 		in.Blocks = append(in.Blocks, b)
+	}
+	if r.Chance(10) { // one block log-uniform in [1, 2^26], compressible when large
+		b := &in.Blocks[0]
+		b.Size = 1 << uint(r.Intn(26))
+		b.Size += r.Intn(b.Size + 1)
+		if b.Size > 1<<20 {
+			b.Kind = vhlib.Pick(r, []string{"const", "tile", "tile"})
+			if in.Level > 6 {
+				in.Level = 1 + r.Intn(6)
+			}
+		}
+		return in
 	}
 	if r.Chance(20) { // scratch sized relative to one of the blocks, that block incompressible
 		b := &in.Blocks[r.Intn(len(in.Blocks))]
@@ -340,6 +426,10 @@ func run(raw json.RawMessage, o vhlib.Opts) (*vhlib.Case, error) {
 	var in input
 	if err := json.Unmarshal(raw, &in); err != nil {
 		return nil, err
+	}
+	if os.Getenv("VH_TIMING") != "" { // per-case wall time on stderr (development aid)
+		t0 := time.Now()
+		defer func() { fmt.Fprintf(os.Stderr, "%8.3fs %s\n", time.Since(t0).Seconds(), in.Enc+" "+in.W+"->"+in.R) }()
 	}
 	if coqCfg[in.W] == "" || coqCfg[in.R] == "" || coqEnc[in.Enc] == "" {
 		return nil, fmt.Errorf("bad case %s", raw)
